@@ -532,30 +532,38 @@ def _triangle_free(g):
 
 
 def c15_cases(rng, k):
-    """cases inside C18's quantifier whose answer is fully determined by the property: all
-    discriminating_path queries; uncovered_pd_path queries only where no path exists or the skeleton is
-    triangle-free (there the search is complete - theorem uncovPdPath_complete_partial - so `found` does
-    not depend on the iteration order of python sets)"""
-    cases = []
-    tries = 0
-    while len(cases) < k and tries < 50 * k + 100:
-        tries += 1
+    """cases inside C18's quantifier whose answer is fully determined by the property: discriminating_path
+    queries outside the known finding (no circle at a on the edge a *-* c); uncovered_pd_path queries only
+    where no path exists or the skeleton is triangle-free (there the search is complete - theorem
+    uncovPdPath_complete_partial - so `found` does not depend on the iteration order of python sets).
+    About half of the cases are positive (a path exists)."""
+    cands = []
+    for t in range(40 * k + 200):
         n = rng.choice((4, 5, 5, 6))
-        g = rand_pag(rng, n, ("pd", "circ", "disc", "unif")[tries % 4])
-        if tries % 2:
-            u, a, c = rng.sample(range(n), 3)
-            cases.append(dict(disc_queries(n, [(u, a, c)])[0], g=g))
+        mode = ("pd", "circ", "disc2", "disc", "disc2", "unif")[t % 6]
+        g = rand_pag(rng, n, mode)
+        if mode in ("disc", "disc2"):
+            D = set(map(tuple, g["D"]))
+            live = [(u, a, c) for u, a, c in itertools.permutations(range(n), 3)
+                    if (a, c) in D and [c, a] not in g["C"]]
+            if live:
+                u, a, c = rng.choice(live)
+                cands.append(dict(disc_queries(n, [(u, a, c)])[0], g=g))
         else:
             u, c = rng.sample(range(n), 2)
             q = rng.choice(updp_queries(n, [(u, c)]))
-            case = dict(q, g=g)
-            if _triangle_free(g):
-                cases.append(case)
-            else:
-                ans = parse_answer(C.lean_batch([lean_line(g, q)], jobs=1)[0])
-                if ans["ex"] == "F":
-                    cases.append(case)
-    return cases[:k]
+            cands.append(dict(q, g=g))
+    ans = [parse_answer(a) for a in C.lean_batch([lean_line(c["g"], c) for c in cands])]
+    pos, neg = [], []
+    for c, a in zip(cands, ans):
+        if c["fn"] == "updp" and a["ex"] == "T" and not _triangle_free(c["g"]):
+            continue
+        (pos if a["ex"] == "T" else neg).append(c)
+    pos = pos[:(k + 1) // 2]
+    return (pos + neg[:k - len(pos)])[:k]
+
+
+_C15_DRV = None
 
 
 def c15_eval(case, fam, order_seed):
@@ -570,7 +578,10 @@ def c15_eval(case, fam, order_seed):
         return "err:" + got["err"]
     if not got["found"]:
         return "none"
-    ans = parse_answer(C.lean_batch([lean_line(case["g"], case, None, None, got["path"])], jobs=1)[0])
+    global _C15_DRV
+    if _C15_DRV is None:
+        _C15_DRV = C.Driver()     # one persistent driver per (sub)process
+    ans = parse_answer(_C15_DRV.ask(lean_line(case["g"], case, None, None, got["path"])))
     return "found:valid" if ans["v"] == "T" else "found:INVALID:path %s fails the Lean specification" % got["path"]
 
 
